@@ -631,4 +631,456 @@ theorem sa_step (o : VOpts) (fuel : Nat) (hL : SL o fuel) : SA o (fuel + 1) := b
           simp only at he2
           exact rej_of_steps o hst1' (hsl.2 he2)
 
+/-! ### objects -/
+
+theorem lexToken_beginObj (o : VOpts) (st : TState) (pos : Nat) (tl : Bytes) :
+    lexToken o st pos (0x7B :: tl) =
+      (match st.m.pushObject maxNestingDepth with
+       | .error se => .err pos (smErr se)
+       | .ok m' => .tok (pos + 1) { m := m', nss := if o.allowDup then st.nss else [] :: st.nss }) := by
+  have hk : normKind 0x7B = 0x7B := by decide
+  simp [lexToken, hk]
+  cases st.m.pushObject maxNestingDepth <;> rfl
+
+theorem step_name_none (f : Frame) (frest : Frames) (hv : f.needName = true) (k : Kind)
+    (hk : k = .lit ∨ k = .num ∨ k = .beginObj ∨ k = .beginArr) :
+    PDA.step maxNestingDepth (f :: frest) k = none := by
+  rcases hk with rfl | rfl | rfl | rfl <;> simp [PDA.step, hv]
+
+/-- anything but a string where a member name is expected (the token is lexed first: finding F2 of slice C16) -/
+theorem rej_nonstring_name (o : VOpts) {b : Nat} {st : TState} {f : Frame} {frest : Frames} (h : TGood b st (f :: frest))
+    (hb : b + 1 < 2^61) (hv : f.needName = true) (pre : Bytes) (c : UInt8) (tl : Bytes)
+    (hpre : PreOK (ncDelim (f :: frest)) pre) (hcw : isWs c = false) (hq : normKind c ≠ 0x22)
+    (hguard : ¬ (f = .obj 0 ∧ c = 0x7D ∧ frest ≠ [])) (cnt base : Nat) :
+    ∀ F, Rej (tokenLoop o F st (pre ++ c :: tl) cnt base) := by
+  rcases byte_class c hcw with hs | hcl | hdb | ⟨hk0, hncl, hndb⟩
+  · obtain ⟨-, hncl, hndb⟩ := start_nc c hs
+    have hrt := readToken_pre o h pre c tl hpre hcw hndb hncl
+    have fin : ∀ (k : Kind) (n : Nat) (e : Err), ¬ Bad e → (k = .lit ∨ k = .num ∨ k = .beginObj ∨ k = .beginArr) →
+        lexToken o st pre.length (c :: tl) =
+          (if e != .ok then .err (pre.length + n) e
+           else match smStep maxNestingDepth st.m k with
+            | .error se => .err pre.length (smErr se)
+            | .ok m' => .tok (pre.length + n) { m := m', nss := st.nss }) →
+        ∀ F, Rej (tokenLoop o F st (pre ++ c :: tl) cnt base) := by
+      intro k n e hbad hk hlex
+      rw [hlex] at hrt
+      by_cases he : e = .ok
+      · subst he
+        obtain ⟨se, hse⟩ := sm_err h hb k (step_name_none f frest hv k hk)
+        simp only [bne_self_eq_false, Bool.false_eq_true, if_false, hse] at hrt
+        exact rej_of_err o st _ cnt base _ _ hrt (smErr_ne_ioeof se)
+      · have : (e != .ok) = true := by simpa using he
+        simp only [this, if_true] at hrt
+        exact rej_of_err o st _ cnt base _ _ hrt (not_bad_ne_ioeof hbad)
+    rcases start_kinds c hs with hk | hk | hk | hk | hk | rfl | rfl
+    · rcases hvl : valueLiteral litNull (c :: tl) with ⟨n, e⟩
+      have hbad := valueLiteral_no_fuel litNull (c :: tl); rw [hvl] at hbad
+      exact fin .lit n e hbad (Or.inl rfl) (lex_literal o st c tl litNull (Or.inl ⟨by simp [hk], rfl⟩) n e hvl _)
+    · rcases hvl : valueLiteral litFalse (c :: tl) with ⟨n, e⟩
+      have hbad := valueLiteral_no_fuel litFalse (c :: tl); rw [hvl] at hbad
+      exact fin .lit n e hbad (Or.inl rfl) (lex_literal o st c tl litFalse (Or.inr (Or.inl ⟨by simp [hk], rfl⟩)) n e hvl _)
+    · rcases hvl : valueLiteral litTrue (c :: tl) with ⟨n, e⟩
+      have hbad := valueLiteral_no_fuel litTrue (c :: tl); rw [hvl] at hbad
+      exact fin .lit n e hbad (Or.inl rfl) (lex_literal o st c tl litTrue (Or.inr (Or.inr ⟨by simp [hk], rfl⟩)) n e hvl _)
+    · exact absurd hk hq
+    · rcases hvl : valueNumber (c :: tl) with ⟨n, e⟩
+      have hbad := valueNumber_no_fuel (c :: tl); rw [hvl] at hbad
+      exact fin .num n e hbad (Or.inr (Or.inl rfl)) (lex_number o st c tl hk n e hvl _)
+    · obtain ⟨se, hse⟩ := sm_err h hb .beginObj (step_name_none f frest hv _ (Or.inr (Or.inr (Or.inl rfl))))
+      rw [lexToken_beginObj] at hrt
+      have : st.m.pushObject maxNestingDepth = .error se := hse
+      simp only [this] at hrt
+      exact rej_of_err o st _ cnt base _ _ hrt (smErr_ne_ioeof se)
+    · obtain ⟨se, hse⟩ := sm_err h hb .beginArr (step_name_none f frest hv _ (Or.inr (Or.inr (Or.inr rfl))))
+      rw [lexToken_beginArr, feed_err' st _ 1 _ se hse] at hrt
+      exact rej_of_err o st _ cnt base _ _ hrt (smErr_ne_ioeof se)
+  · refine rej_closing o h hb pre c tl hpre hcl ?_ hguard cnt base
+    rintro ⟨hf, -, -⟩; rw [hf] at hv; simp [Frame.needName] at hv
+  · exact rej_delimbyte o h pre c tl hpre hdb cnt base
+  · have hrt := readToken_pre o h pre c tl hpre hcw hndb hncl
+    have hlex : lexToken o st pre.length (c :: tl) = .err pre.length .invalidChar := by simp [lexToken, hk0]
+    rw [hlex] at hrt
+    exact rej_of_err o st _ cnt base _ _ hrt (by simp)
+
+/-- the namespaces of the token path hold the names the value path has collected for the current object -/
+def NsOK (o : VOpts) (st : TState) (names : List Bytes) (outer : List (List Bytes)) : Prop :=
+  if o.allowDup then st.nss = outer else st.nss = names :: outer
+
+theorem name_token (o : VOpts) {b : Nat} {st : TState} {k : Nat} {g : Frame} {grest : Frames}
+    (hg : TGood b st (.obj k :: g :: grest)) (hk : k % 2 = 0) (hb : b + 1 < 2^61)
+    (names : List Bytes) (outer : List (List Bytes)) (hns : NsOK o st names outer)
+    (c : UInt8) (tl : Bytes) (hkq : normKind c = 0x22) (nn : Nat) (fl : ValueFlags) (e : Err)
+    (hvs : valueString o (c :: tl) = (nn, fl, e)) (pos : Nat) :
+    ∃ m', (∀ nss, TGood (b + 1) { m := m', nss := nss } (.obj (k + 1) :: g :: grest)) ∧
+      lexToken o st pos (c :: tl) =
+        (if e != .ok then .err (pos + nn) e
+         else if !o.allowDup && names.contains (unescapedName ((c :: tl).take nn) fl) then .err pos .dupName
+         else .tok (pos + nn) { m := m', nss := if o.allowDup then outer
+                                               else (names ++ [unescapedName ((c :: tl).take nn) fl]) :: outer }) := by
+  have hstep : PDA.step maxNestingDepth (.obj k :: g :: grest) .str = some (.obj (k + 1) :: g :: grest) := by
+    simp [PDA.step, Frame.bump]
+  obtain ⟨m', hm', hg'⟩ := sm_ok hg hb .str hstep
+  have hm'' : st.m.appendString = .ok m' := hm'
+  refine ⟨m', hg', ?_⟩
+  have hnn : st.m.last.needObjectName = true := by rw [good_needName hg]; simp [Frame.needName, hk]
+  obtain ⟨hvn, han⟩ := good_ns_flags hg
+  simp only [lexToken, hkq, hvs]
+  by_cases he : e = .ok
+  · subst he
+    have hlen : ((c :: tl).take nn).length = nn := by
+      have := (valueString_sound o _ nn fl hvs).1
+      simp only [List.length_take]; omega
+    unfold NsOK at hns
+    cases ha : o.allowDup with
+    | true =>
+      simp only [ha, if_true] at hns
+      have hlen' : min nn (tl.length + 1) = nn := by simpa using hlen
+      simp [feedString, hnn, ha, hm'', hlen', hns]
+    | false =>
+      simp only [ha, Bool.false_eq_true, if_false] at hns
+      have hlen' : min nn (tl.length + 1) = nn := by simpa using hlen
+      simp [feedString, hnn, ha, hvn, han, hns, hm'', hlen']
+  · simp [he]
+
+theorem drop_add_of (r : Bytes) (a : Nat) (x : Bytes) (h : r.drop a = x) (m : Nat) : r.drop (a + m) = x.drop m := by
+  rw [← List.drop_drop, h]
+
+theorem quote_of_kind : ∀ c : UInt8, normKind c = 0x22 → c = 0x22 := by
+  apply forall_u8; decide +kernel
+
+theorem take_ws_len (r : Bytes) : (r.take (consumeWhitespace r)).length = consumeWhitespace r := by
+  simp only [List.length_take]; have := ws_le r; omega
+
+structure AtMem (o : VOpts) (b D : Nat) (st : TState) (k : Nat) (g : Frame) (grest : Frames) (lead r : Bytes)
+    (names : List Bytes) (outer : List (List Bytes)) : Prop where
+  good : TGood b st (.obj k :: g :: grest)
+  even : k % 2 = 0
+  depth : grest.length + 2 = D
+  lead : LeadOK (ncDelim (.obj k :: g :: grest)) lead
+  ns : NsOK o st names outer
+  guard : k = 0 → ∀ c t, r.drop (consumeWhitespace r) = c :: t → c ≠ 0x7D
+  room : b + r.length + 1 < 2^61
+
+def OkLoopO (o : VOpts) (b D : Nat) (st : TState) (g : Frame) (grest : Frames) (lead r : Bytes) (n cnt base : Nat)
+    (outer : List (List Bytes)) : Prop :=
+  ∃ T st', 1 ≤ T ∧ T ≤ n ∧ n ≤ r.length ∧ TGood (b + T) st' (g :: grest) ∧ (st'.nss = outer) ∧
+    Steps o T st (lead ++ r) cnt base st' (r.drop n) (if D = 2 then cnt + 1 else cnt) (base + lead.length + n)
+
+def ConclO (o : VOpts) (b D : Nat) (st : TState) (g : Frame) (grest : Frames) (lead r : Bytes) (cnt base : Nat)
+    (outer : List (List Bytes)) (res : Nat × Err) : Prop :=
+  (res.2 = .ok → OkLoopO o b D st g grest lead r res.1 cnt base outer) ∧
+  (res.2 ≠ .ok → ∀ F, Rej (tokenLoop o F st (lead ++ r) cnt base))
+
+def SOL (o : VOpts) (fuel : Nat) : Prop :=
+  ∀ D r names b st k g grest lead outer cnt base, AtMem o b D st k g grest lead r names outer → 3 * r.length + 2 ≤ fuel →
+    ConclO o b D st g grest lead r cnt base outer (objectLoop o fuel D names r)
+
+theorem step_endObj (k : Nat) (hk : k % 2 = 0) (g : Frame) (grest : Frames) :
+    PDA.step maxNestingDepth (.obj k :: g :: grest) .endObj = some (g :: grest) := by simp [PDA.step, hk]
+
+theorem sol_step (o : VOpts) (fuel : Nat) (hV : SV o fuel) (hL : SOL o fuel) : SOL o (fuel + 1) := by
+  intro D r names b st k g grest lead outer cnt base ha hfuel
+  have hlen2 : 2 ≤ (Frame.obj k :: g :: grest).length := by simp
+  have hb1 : b + 1 < 2^61 := by have := ha.room; omega
+  have hD2 : ¬ (D = 1) := by have := ha.depth; omega
+  simp only [objectLoop]
+  cases hd : r.drop (consumeWhitespace r) with
+  | nil =>
+    simp only
+    refine ⟨fun he => by simp at he, fun _ => ?_⟩
+    exact rej_lead_end o ha.good hlen2 lead r ha.lead (jws_of_drop_nil r hd) cnt base
+  | cons c0 ra0 =>
+    simp only
+    have hsplit := split_at_drop r _ c0 ra0 hd
+    have hl1 := len_of_drop r _ c0 ra0 hd
+    have hc0w : isWs c0 = false := by
+      have := ws_stop r c0 ra0 hd; rw [← isWs_iff] at this; simpa using this
+    have hpre0 : PreOK (ncDelim (.obj k :: g :: grest)) (lead ++ r.take (consumeWhitespace r)) :=
+      pre_of_lead _ _ _ ha.lead (ws_take r)
+    have hin : lead ++ r = (lead ++ r.take (consumeWhitespace r)) ++ c0 :: ra0 := by
+      rw [List.append_assoc, ← hsplit]
+    have hpre0len : (lead ++ r.take (consumeWhitespace r)).length = lead.length + consumeWhitespace r := by
+      rw [List.length_append, take_ws_len]
+    rcases hvs : valueString o (c0 :: ra0) with ⟨nn, fl, e0⟩
+    simp only
+    by_cases hq : ¬ (normKind c0 = 0x22)
+    · -- not a string: the value path fails at once, the token path lexes something and fails too
+      have he0 : e0 = .invalidChar := by
+        have hne : c0 ≠ 0x22 := by intro h; rw [h] at hq; exact hq (by decide)
+        have h1 : consumeSimpleString (c0 :: ra0) = 0 := by simp [consumeSimpleString, hne]
+        have h2 : consumeStringResumable (c0 :: ra0) 0 (!o.allowInvalidUTF8) = (0, {}, .invalidChar) := by
+          simp [consumeStringResumable, hne]
+        have : valueString o (c0 :: ra0) = (0, {}, .invalidChar) := by simp [valueString, h1, h2]
+        rw [hvs] at this; simp only [Prod.mk.injEq] at this; exact this.2.2
+      subst he0
+      simp only [show (Err.invalidChar != Err.ok) = true by decide, if_true]
+      refine ⟨fun he => by simp at he, fun _ => ?_⟩
+      rw [hin]
+      refine rej_nonstring_name o ha.good hb1 (by simp [Frame.needName, ha.even]) _ c0 ra0 hpre0 hc0w hq ?_ cnt base
+      rintro ⟨hf, hc, -⟩
+      simp only [Frame.obj.injEq] at hf
+      exact ha.guard hf c0 ra0 hd hc
+    have hq : normKind c0 = 0x22 := by simpa using hq
+    have hc0 : c0 = 0x22 := quote_of_kind c0 hq
+    obtain ⟨m1, hg1, hlex⟩ := name_token o ha.good ha.even hb1 names outer ha.ns c0 ra0 hq nn fl e0 hvs
+      (lead ++ r.take (consumeWhitespace r)).length
+    have hrt := readToken_pre o ha.good _ c0 ra0 hpre0 hc0w (by rw [hc0]; decide) (by rw [hc0]; decide)
+    rw [hlex] at hrt
+    by_cases he0 : e0 ≠ .ok
+    · have : (e0 != .ok) = true := by simpa using he0
+      simp only [this, if_true] at hrt ⊢
+      refine ⟨fun h' => absurd h' he0, fun _ => ?_⟩
+      rw [hin]
+      have hbad := valueString_no_fuel o (c0 :: ra0); rw [hvs] at hbad
+      exact rej_of_err o st _ cnt base _ _ hrt (not_bad_ne_ioeof hbad)
+    have he0' : e0 = .ok := by simpa using he0
+    subst he0'
+    simp only [bne_self_eq_false, Bool.false_eq_true, if_false] at hrt ⊢
+    obtain ⟨hnnl, -⟩ := valueString_sound o _ nn fl hvs
+    have hnnpos : 1 ≤ nn := by
+      obtain ⟨_, body, _, htk⟩ := valueString_sound o _ nn fl hvs
+      have h2 := congrArg List.length htk
+      simp only [List.length_take, List.length_cons, List.length_append] at h2
+      omega
+    by_cases hdup : (!o.allowDup && names.contains (unescapedName ((c0 :: ra0).take nn) fl)) = true
+    · simp only [hdup, if_true] at hrt ⊢
+      refine ⟨fun he => by simp at he, fun _ => ?_⟩
+      rw [hin]
+      exact rej_of_err o st _ cnt base _ _ hrt (by simp)
+    have hdup' : (!o.allowDup && names.contains (unescapedName ((c0 :: ra0).take nn) fl)) = false := by simpa using hdup
+    simp only [hdup', Bool.false_eq_true, if_false] at hrt ⊢
+    -- the state after the name
+    generalize hst1def : ({ m := m1, nss := if o.allowDup = true then outer
+        else (names ++ [unescapedName ((c0 :: ra0).take nn) fl]) :: outer } : TState) = st1 at hrt
+    have hg1' : TGood (b + 1) st1 (.obj (k + 1) :: g :: grest) := by rw [← hst1def]; exact hg1 _
+    have hns1 : NsOK o st1 (if o.allowDup = true then names else names ++ [unescapedName ((c0 :: ra0).take nn) fl]) outer := by
+      rw [← hst1def]; unfold NsOK
+      cases o.allowDup <;> simp
+    rw [← hin] at hrt
+    have hst1 := steps_one o st st1 (lead ++ r) cnt base _ hrt (by omega)
+    have hdep1 : st1.m.depth = D := by rw [good_depth hg1']; have := ha.depth; simp; omega
+    have hcnt1 : (if (st1.m.depth == 1) = true then cnt + 1 else cnt) = cnt := by rw [hdep1]; simp [hD2]
+    have hdrop1 : (lead ++ r).drop ((lead ++ r.take (consumeWhitespace r)).length + nn) = (c0 :: ra0).drop nn := by
+      rw [hin, ← List.drop_drop]; simp
+    rw [hcnt1, hdrop1] at hst1
+    have hb2 : b + 1 + 1 < 2^61 := by have := ha.room; simp at hnnl; omega
+    generalize hrb : (c0 :: ra0).drop nn = rb at *
+    have hrblen : rb.length + nn = ra0.length + 1 := by
+      rw [← hrb]; simp only [List.length_drop, List.length_cons]; simp at hnnl; omega
+    cases hd2 : rb.drop (consumeWhitespace rb) with
+    | nil =>
+      simp only
+      refine ⟨fun he => by simp at he, fun _ => ?_⟩
+      exact rej_of_steps o hst1 (rej_end o hg1' (by simp) _ (jws_of_drop_nil _ hd2) cnt _)
+    | cons c rc =>
+      simp only
+      have hsplit2 := split_at_drop rb _ c rc hd2
+      have hl2 := len_of_drop rb _ c rc hd2
+      have hcw : isWs c = false := by
+        have := ws_stop rb c rc hd2; rw [← isWs_iff] at this; simpa using this
+      by_cases hcol : (c != 0x3A) = true
+      · simp only [hcol, if_true]
+        refine ⟨fun he => by simp at he, fun _ => ?_⟩
+        refine rej_of_steps o hst1 ?_
+        rw [hsplit2]
+        have hodd : (k + 1) % 2 = 1 := by have := ha.even; omega
+        refine rej_unexpected o hg1' hb2 _ c rc (ws_take rb) hcw (by rw [ncDelim_objOdd _ hodd]; decide)
+          (by rw [ncDelim_objOdd _ hodd]; simpa using hcol) ?_ ?_ ?_ cnt _
+        · intro kk' _; left; rw [closeDelim_objOdd _ hodd]; decide
+        · intro kk' _ _; exact ncDelim_objOdd _ hodd g grest
+        · intro kk' _; rw [closeDelim_objOdd _ hodd]; decide
+      have hc : c = 0x3A := by simpa using hcol
+      subst hc
+      simp only [bne_self_eq_false, Bool.false_eq_true, if_false]
+      cases hd3 : rc.drop (consumeWhitespace rc) with
+      | nil =>
+        simp only
+        refine ⟨fun he => by simp at he, fun _ => ?_⟩
+        refine rej_of_steps o hst1 ?_
+        rw [hsplit2]
+        obtain ⟨off, e, he, hne⟩ := readToken_delim_end o st1 (rb.take (consumeWhitespace rb)) rc 0x3A (by decide)
+          (ws_take rb) (jws_of_drop_nil rc hd3)
+        exact rej_of_err o st1 _ cnt _ off e he hne
+      | cons c1 rd0 =>
+        simp only
+        have hsplit3 := split_at_drop rc _ c1 rd0 hd3
+        have hl3 := len_of_drop rc _ c1 rd0 hd3
+        have hc1w : isWs c1 = false := by
+          have := ws_stop rc c1 rd0 hd3; rw [← isWs_iff] at this; simpa using this
+        have hodd : (k + 1) % 2 = 1 := by have := ha.even; omega
+        have hav : AtValue (b + 1) D st1 (.obj (k + 1)) (g :: grest)
+            (rb.take (consumeWhitespace rb) ++ 0x3A :: rc.take (consumeWhitespace rc)) c1 rd0 :=
+          { good := hg1'
+            depth := by have := ha.depth; simp; omega
+            vpos := by simp [Frame.needName, hodd]
+            pre := by
+              rw [ncDelim_objOdd _ hodd]
+              exact Or.inr ⟨by decide, _, _, ws_take rb, ws_take rc, rfl⟩
+            cws := hc1w
+            guard := by intro hf; cases hf
+            room := by have := ha.room; simp; omega }
+        have hin3 : rb = (rb.take (consumeWhitespace rb) ++ 0x3A :: rc.take (consumeWhitespace rc)) ++ c1 :: rd0 := by
+          conv => lhs; rw [hsplit2, hsplit3]
+          simp
+        have hsv := hV D c1 rd0 (b + 1) st1 (.obj (k + 1)) (g :: grest) _ cnt
+          (base + ((lead ++ r.take (consumeWhitespace r)).length + nn)) hav (by simp at hfuel ⊢; omega)
+        rcases hcv : consumeValue o fuel D (c1 :: rd0) with ⟨kk, e⟩
+        rw [hcv] at hsv
+        simp only
+        by_cases he : e ≠ .ok
+        · have : (e != .ok) = true := by simpa using he
+          simp only [this, if_true]
+          refine ⟨fun h' => absurd h' he, fun _ => ?_⟩
+          refine rej_of_steps o hst1 ?_
+          rw [hin3]; exact hsv.2 he
+        have he' : e = .ok := by simpa using he
+        subst he'
+        simp only [bne_self_eq_false, Bool.false_eq_true, if_false]
+        obtain ⟨T1, st2, hT1, hT1k, hkl, hg2, hns2, hst2⟩ := hsv.1 rfl
+        simp only [Frame.bump, hD2, if_false] at hg2 hst2
+        rw [← hin3] at hst2
+        have hst12 := steps_trans o hst1 hst2
+        have hb3 : b + 1 + T1 + 1 < 2^61 := by have := ha.room; simp at hkl; omega
+        have heven2 : (k + 1 + 1) % 2 = 0 := by have := ha.even; omega
+        have hpre1len : (rb.take (consumeWhitespace rb) ++ 0x3A :: rc.take (consumeWhitespace rc)).length =
+            consumeWhitespace rb + 1 + consumeWhitespace rc := by
+          simp only [List.length_append, List.length_cons, take_ws_len]; omega
+        generalize hre : (c1 :: rd0).drop kk = re at *
+        have hrelen : re.length + kk = rd0.length + 1 := by
+          rw [← hre]; simp only [List.length_drop, List.length_cons]; simp at hkl; omega
+        cases hd4 : re.drop (consumeWhitespace re) with
+        | nil =>
+          simp only
+          refine ⟨fun he => by simp at he, fun _ => ?_⟩
+          exact rej_of_steps o hst12 (rej_end o hg2 (by simp) _ (jws_of_drop_nil _ hd4) cnt _)
+        | cons c2 rf =>
+          simp only
+          have hsplit4 := split_at_drop re _ c2 rf hd4
+          have hl4 := len_of_drop re _ c2 rf hd4
+          have hc2w : isWs c2 = false := by
+            have := ws_stop re c2 rf hd4; rw [← isWs_iff] at this; simpa using this
+          -- where the byte c2 sits, seen from r
+          have hdropAll : ∀ m, r.drop (consumeWhitespace r + nn + consumeWhitespace rb + 1 + consumeWhitespace rc + kk +
+              consumeWhitespace re + 1 + m) = rf.drop m := by
+            intro m
+            have e1 : consumeWhitespace r + nn + consumeWhitespace rb + 1 + consumeWhitespace rc + kk + consumeWhitespace re + 1 + m =
+                consumeWhitespace r + (nn + (consumeWhitespace rb + (1 + (consumeWhitespace rc + (kk + (consumeWhitespace re + (1 + m))))))) := by omega
+            rw [e1, drop_add_of r _ _ hd, drop_add_of _ _ _ hrb, drop_add_of _ _ _ hd2]
+            have e2 : 1 + (consumeWhitespace rc + (kk + (consumeWhitespace re + (1 + m)))) =
+                (consumeWhitespace rc + (kk + (consumeWhitespace re + (1 + m)))) + 1 := by omega
+            rw [e2, List.drop_succ_cons, drop_add_of _ _ _ hd3, drop_add_of _ _ _ hre, drop_add_of _ _ _ hd4]
+            have e3 : 1 + m = m + 1 := by omega
+            rw [e3, List.drop_succ_cons]
+          by_cases hcomma : (c2 == 0x2C) = true
+          · have hc2 : c2 = 0x2C := by simpa using hcomma
+            subst hc2
+            simp only [beq_self_eq_true, if_true]
+            have ham : AtMem o (b + 1 + T1) D st2 (k + 1 + 1) g grest (re.take (consumeWhitespace re) ++ [0x2C]) rf
+                (if o.allowDup = true then names else names ++ [unescapedName ((c0 :: ra0).take nn) fl]) outer :=
+              { good := hg2
+                even := heven2
+                depth := ha.depth
+                lead := by
+                  rw [ncDelim_objEven _ heven2 (by omega)]
+                  exact Or.inr ⟨by decide, _, ws_take re, rfl⟩
+                ns := by unfold NsOK at hns1 ⊢; rw [hns2]; exact hns1
+                guard := by intro h0; omega
+                room := by have := ha.room; omega }
+            have hsl := hL D rf _ (b + 1 + T1) st2 (k + 1 + 1) g grest (re.take (consumeWhitespace re) ++ [0x2C]) outer cnt
+              (base + ((lead ++ r.take (consumeWhitespace r)).length + nn) +
+                (rb.take (consumeWhitespace rb) ++ 0x3A :: rc.take (consumeWhitespace rc)).length + kk) ham (by omega)
+            have hin4 : re = (re.take (consumeWhitespace re) ++ [0x2C]) ++ rf := by simpa using hsplit4
+            rcases hal : objectLoop o fuel D
+              (if o.allowDup = true then names else names ++ [unescapedName ((c0 :: ra0).take nn) fl]) rf with ⟨n2, e2⟩
+            rw [hal] at hsl
+            simp only [addOff]
+            constructor
+            · intro he2
+              simp only at he2
+              obtain ⟨T2, st3, hT2, hT2n, hn2l, hg3, hns3, hst3⟩ := hsl.1 he2
+              rw [← hin4] at hst3
+              refine ⟨1 + T1 + T2, st3, by omega, by first | omega | (simp; omega), by first | omega | (simp; omega), ?_, hns3, ?_⟩
+              · have : b + (1 + T1 + T2) = b + 1 + T1 + T2 := by omega
+                rw [this]; exact hg3
+              · have hcomp := steps_trans o hst12 hst3
+                simp only
+                rw [hdropAll n2]
+                have hbase : base + ((lead ++ r.take (consumeWhitespace r)).length + nn) +
+                    (rb.take (consumeWhitespace rb) ++ 0x3A :: rc.take (consumeWhitespace rc)).length + kk +
+                    (re.take (consumeWhitespace re) ++ [0x2C]).length + n2 =
+                    base + lead.length + (consumeWhitespace r + nn + consumeWhitespace rb + 1 + consumeWhitespace rc + kk +
+                      consumeWhitespace re + 1 + n2) := by
+                  rw [hpre0len, hpre1len]
+                  simp only [List.length_append, take_ws_len, List.length_cons, List.length_nil]; omega
+                rw [hbase] at hcomp
+                exact hcomp
+            · intro he2
+              simp only at he2
+              exact rej_of_steps o hst12 (by rw [hin4]; exact hsl.2 he2)
+          · have hcomma' : (c2 == 0x2C) = false := by simpa using hcomma
+            simp only [hcomma', Bool.false_eq_true, if_false]
+            by_cases hclose : (c2 == 0x7D) = true
+            · have hc2 : c2 = 0x7D := by simpa using hclose
+              subst hc2
+              simp only [beq_self_eq_true, if_true]
+              refine ⟨fun _ => ?_, fun he => by simp at he⟩
+              obtain ⟨m3, hm3, hg3⟩ := sm_ok hg2 hb3 .endObj (step_endObj (k + 1 + 1) heven2 g grest)
+              have hm3' : st2.m.popObject = .ok m3 := hm3
+              have hrt3 := readToken_nodelim o st2 (re.take (consumeWhitespace re)) 0x7D rf (ws_take re) (by decide) (by decide)
+              rw [needDelim_good hg2 (normKind 0x7D) .endObj (by decide), closeDelim_objEven _ heven2 _ _ rfl] at hrt3
+              simp only [bne_self_eq_false, Bool.false_eq_true, if_false] at hrt3
+              rw [lexToken_endObj, ← hsplit4, take_ws_len] at hrt3
+              simp only [hm3'] at hrt3
+              have hs3 := steps_one o st2 _ re cnt (base + ((lead ++ r.take (consumeWhitespace r)).length + nn) +
+                (rb.take (consumeWhitespace rb) ++ 0x3A :: rc.take (consumeWhitespace rc)).length + kk)
+                (consumeWhitespace re + 1) hrt3 (by omega)
+              have hcomp := steps_trans o hst12 hs3
+              have hnss3 : (if o.allowDup = true then st2.nss else st2.nss.drop 1) = outer := by
+                rw [hns2]; unfold NsOK at hns1
+                cases ha' : o.allowDup <;> simp [ha'] at hns1 ⊢ <;> simp [hns1]
+              refine ⟨1 + T1 + 1, { m := m3, nss := if o.allowDup = true then st2.nss else st2.nss.drop 1 },
+                by omega, by first | omega | (simp; omega), by first | omega | (simp; omega), ?_, hnss3, ?_⟩
+              · have : b + (1 + T1 + 1) = b + 1 + T1 + 1 := by omega
+                rw [this]; exact hg3 _
+              · have hdep3 : ({ m := m3, nss := if o.allowDup = true then st2.nss else st2.nss.drop 1 } : TState).m.depth = D - 1 := by
+                  rw [good_depth (hg3 _)]; have := ha.depth; simp; omega
+                rw [hdep3] at hcomp
+                have hcnt : (if (D - 1 == 1) = true then cnt + 1 else cnt) = (if D = 2 then cnt + 1 else cnt) := by
+                  have := ha.depth
+                  by_cases h : D = 2
+                  · subst h; simp
+                  · have : ¬ (D - 1 = 1) := by omega
+                    simp [h, this]
+                rw [hcnt] at hcomp
+                simp only
+                have hd0 := hdropAll 0
+                simp only [Nat.add_zero, List.drop_zero] at hd0
+                rw [hd0]
+                have hrf : re.drop (consumeWhitespace re + 1) = rf := by
+                  rw [drop_add_of _ _ _ hd4]; rfl
+                rw [hrf] at hcomp
+                have hbase : base + ((lead ++ r.take (consumeWhitespace r)).length + nn) +
+                    (rb.take (consumeWhitespace rb) ++ 0x3A :: rc.take (consumeWhitespace rc)).length + kk +
+                    (consumeWhitespace re + 1) =
+                    base + lead.length + (consumeWhitespace r + nn + consumeWhitespace rb + 1 + consumeWhitespace rc + kk +
+                      consumeWhitespace re + 1) := by
+                  rw [hpre0len, hpre1len]; omega
+                rw [hbase] at hcomp
+                exact hcomp
+            · have hclose' : (c2 == 0x7D) = false := by simpa using hclose
+              simp only [hclose', Bool.false_eq_true, if_false]
+              refine ⟨fun he => by simp at he, fun _ => ?_⟩
+              refine rej_of_steps o hst12 ?_
+              rw [hsplit4]
+              refine rej_unexpected o hg2 hb3 _ c2 rf (ws_take re) hc2w
+                (by rw [ncDelim_objEven _ heven2 (by omega)]; decide)
+                (by rw [ncDelim_objEven _ heven2 (by omega)]; simpa using hcomma) ?_ ?_ ?_ cnt _
+              · intro kk' hk'
+                rcases hk' with ⟨-, rfl⟩ | ⟨rfl, -⟩
+                · right; simp [PDA.step]
+                · simp at hclose
+              · intro kk' hk' h'; rw [closeDelim_objEven _ heven2 _ _ hk'] at h'; cases h'
+              · intro kk' hk'; rw [closeDelim_objEven _ heven2 _ _ hk']; decide
+
 end JsonV.Lemmas.WireTokenSim
